@@ -40,10 +40,10 @@ def run(ctx):
                             if ename == "instantiate":
                                 ctx.ob("R17.3", key + "/initial list", True, trivial=True)
                                 continue
-                            n_admin_writes.add((e.site[2], e.site[1]))
+                            n_admin_writes.add((crate, variant))
                             check_admin_write(ctx, p, i, e, key, ADMIN)
                         elif e.item in (ALW, PERM):
-                            n_grant.add((e.site[2], e.site[1]))
+                            n_grant.add((variant, "A" if e.item == ALW else "P", e.op))
                             pol, _ = admin_cond(ctx, p, ADMIN, SENDER, before=i)
                             good = pol is True
                             why = "admin"
@@ -60,8 +60,8 @@ def run(ctx):
                                    detail="subkey grant written at key %s without is_admin(stored ADMIN_LIST, info.sender) = true before the write"
                                           % show(e.key)[:120], sample={"write": repr(e)[:200], "authority": why})
                 ctx.ob("R17.3", key, True, trivial=True)
-    ctx.floor("R17.1", "ADMIN_LIST write sites outside instantiate", len(n_admin_writes), 2)
-    ctx.floor("R17.4", "ALLOWANCES/PERMISSIONS write sites", len(n_grant), 5)
+    ctx.floor("R17.1", "ADMIN_LIST-writing (contract, variant) pairs outside instantiate", len(n_admin_writes), 4)
+    ctx.floor("R17.4", "ALLOWANCES/PERMISSIONS writes (variant, map, op)", len(n_grant), 5)
 
 
 def check_admin_write(ctx, p, i, e, key, ADMIN):
